@@ -9,23 +9,21 @@ use crate::internal::{
 
 use super::random_access_deserializer::RandomAccessDeserializer;
 
-pub trait DatePrimitive:
-    TryInto<i32> + TryInto<i64> + Copy + std::fmt::Display + std::ops::Div<Self, Output = Self>
-{
+pub trait DatePrimitive: TryInto<i32> + TryInto<i64> + Copy + std::fmt::Display {
     const DATA_TYPE_NAME: &'static str;
-    const DAY_TO_VALUE_FACTOR: Self;
+    const DAY_TO_VALUE_FACTOR: i64;
     const BITS: usize;
 }
 
 impl DatePrimitive for i32 {
     const DATA_TYPE_NAME: &'static str = "Date32";
-    const DAY_TO_VALUE_FACTOR: Self = 1;
+    const DAY_TO_VALUE_FACTOR: i64 = 1;
     const BITS: usize = 32;
 }
 
 impl DatePrimitive for i64 {
     const DATA_TYPE_NAME: &'static str = "Date64";
-    const DAY_TO_VALUE_FACTOR: Self = 86_400_000;
+    const DAY_TO_VALUE_FACTOR: i64 = 86_400_000;
     const BITS: usize = 64;
 }
 
@@ -40,9 +38,11 @@ impl<'a, I: DatePrimitive> DateDeserializer<'a, I> {
     }
 
     pub fn get_string_repr(&self, ts: I) -> Result<String> {
-        let ts = (ts / I::DAY_TO_VALUE_FACTOR)
+        let ts: i64 = ts
             .try_into()
             .map_err(|_| Error::custom(format!("Cannot convert {ts} to i64")))?;
+        // NOTE: round towards negative infinity, a time before the epoch belongs to the earlier day
+        let ts = ts.div_euclid(I::DAY_TO_VALUE_FACTOR);
 
         const UNIX_EPOCH: NaiveDate = NaiveDateTime::UNIX_EPOCH.date();
         let Some(date) =
